@@ -157,8 +157,9 @@ def main(modname, tier, seed, replay=None, extra_result_hook=None):
             print("VIOLATION property=%s replay=%s" % (mod.PID, replay))
             print("  " + oc.why)
             return 1
+        listed = {f["id"]: f for f in ctx.known.for_property(mod.PID)}
         for k in oc.known:
-            print("KNOWN-FINDING: property=%s %s" % (mod.PID, k))
+            print("KNOWN-FINDING: property=%s %s: %s" % (mod.PID, k, listed.get(k, {}).get("what", "")[:160]))
         print("replay passes: property holds on this case")
         return 0
     res = Result(mod.PID, tier, seed, mod.LEVEL)
@@ -235,6 +236,11 @@ def main(modname, tier, seed, replay=None, extra_result_hook=None):
             break
     if extra_result_hook:
         extra_result_hook(res, ctx)
+    listed = {f["id"]: f for f in ctx.known.for_property(mod.PID)}
     for k, n in sorted(res.known_hits.items()):
-        print("KNOWN-FINDING: property=%s %s (hit %d times)" % (mod.PID, k, n))
+        what = listed.get(k, {}).get("what", "")
+        print("KNOWN-FINDING: property=%s %s: %s (hit %d times in this run)" % (mod.PID, k, what[:160], n))
+        if k not in listed:
+            # a signature the file does not list must never be silenced
+            res.violations.append(("known_findings.json", "signature %s reported by the check is not listed" % k))
     return res.finish()
